@@ -44,9 +44,39 @@ def api_level(rep, tier_, rng):
                         if not inside(op(p_, q_), v):
                             rep.violation("iv.mpc operator %s misses an exact result" % nm, {"fn": "ivmpc " + nm, "x": repr(x), "y": repr(y), "prec": prec})
                             break
+        # gamma family on rectangles: necessary condition at the integer member points, where the exact values are rationals
+        # (gamma(m) = (m-1)!, rgamma(m) = 1/(m-1)!, factorial(m) = m!, loggamma(1) = loggamma(2) = 0); rectangles on and next to
+        # the excluded region around the real axis left of the gamma minimum 1.4616...
+        import math
+        gchecked = 0
+        for _ in range(60 if tier_ == "quick" else 1500):
+            prec = rng.choice([24, 53, 100]); iv.prec = prec
+            m0 = rng.choice([1, 1, 2, 2, 3, 4, 6])
+            a1 = Fraction(m0) - rng.choice([Fraction(0), Fraction(1, 8), Fraction(1, 4), Fraction(1, 2), Fraction(3, 4)])
+            a2 = Fraction(m0) + rng.choice([Fraction(0), Fraction(1, 8), Fraction(1, 2), Fraction(3, 4), Fraction(3, 2), Fraction(5, 2)])
+            b1 = -rng.choice([Fraction(0), Fraction(1, 16), Fraction(1, 8), Fraction(1), Fraction(2)])
+            b2 = rng.choice([Fraction(0), Fraction(1, 16), Fraction(1, 8), Fraction(1), Fraction(2)])
+            if a1 <= 0: a1 = Fraction(1, 8)
+            z = iv.mpc(iv.mpf([float(a1), float(a2)]), iv.mpf([float(b1), float(b2)]))
+            ints = [m for m in range(1, 9) if a1 <= m <= a2]
+            for nm, f, val in (("gamma", iv.gamma, lambda m: Fraction(math.factorial(m - 1))), ("rgamma", iv.rgamma, lambda m: Fraction(1, math.factorial(m - 1))),
+                               ("factorial", iv.factorial, lambda m: Fraction(math.factorial(m))), ("loggamma", iv.loggamma, lambda m: Fraction(0) if m in (1, 2) else None)):
+                try:
+                    r = f(z)
+                except Exception:
+                    continue           # "whenever a result is returned"
+                gchecked += 1
+                for m in ints:
+                    ex = val(m)
+                    if ex is None: continue
+                    if not inside((ex, Fraction(0)), r):
+                        rep.violation("iv.%s of a rectangle misses the exact value at the member point %d" % (nm, m),
+                                      {"fn": "ivmpc " + nm, "re": [str(a1), str(a2)], "im": [str(b1), str(b2)], "prec": prec, "member": m})
+                        break
+        checked += gchecked
     finally:
         iv.prec = p0
-    return {"api_level_checks": checked, "api_level": "iv.mpc operators + - * **2 **3 on rectangles, 9x9 sampled member points each"}
+    return {"api_level_checks": checked, "api_level": "iv.mpc operators + - * **2 **3 on rectangles, 9x9 sampled member points each; gamma/rgamma/factorial/loggamma on rectangles at integer member points (exact rational values)"}
 
 
 def run(rep, tier_, rng):
